@@ -44,7 +44,7 @@ func init() {
 	for _, id := range []string{"C02", "C03", "C04", "C11", "C12", "C18"} {
 		propsCfg[id] = propCfg{harness: "ha", shards: 16, quickBudget: 150 * time.Second, thoroughBudget: 40 * time.Minute}
 	}
-	for _, id := range []string{"C03", "C15", "C17"} {
+	for _, id := range []string{"C02", "C03", "C15", "C17"} {
 		c := propsCfg[id]
 		c.also, c.alsoShards = "hb", 4
 		propsCfg[id] = c
